@@ -134,24 +134,52 @@ def changed : Nat → World → Nat → World
       let w := w.setReg r (clearCaches (w.reg r))
       (w.reg r).subregs.foldl (fun w s => changed f w s) w
 
-/-- `VerifyingBase._verify` -/
-def verify (w : World) (r : Nat) : World :=
+/-! ### registry resolution order -/
+def regBases (w : World) : Bases := fun r => (w.reg r).bases
+
+/-- `VerifyingBase._verify` as at the pinned commit: a stale `ro` survives -/
+def verifyAsIs (w : World) (r : Nat) : World :=
   if !w.verifying then w else
   let x := w.reg r
   if (x.verifyRo.map fun b => (w.reg b).generation) != x.verifyGen then verifyingChanged w r else w
 
-/-! ### registry resolution order -/
-def regBases (w : World) : Bases := fun r => (w.reg r).bases
-def setBases (fuel : Nat) (w : World) (r : Nat) (bs : List Nat) : World :=
-  let old := (w.reg r).bases
-  let w := if w.verifying then w else
-    let w := old.foldl (fun w b => if bs.contains b then w else
-      w.setReg b { w.reg b with subregs := (w.reg b).subregs.filter (· != r) }) w
-    bs.foldl (fun w b => if old.contains b then w else
-      w.setReg b { w.reg b with subregs := (w.reg b).subregs.filter (· != r) ++ [r] }) w
+/-- `VerifyingBase._verify` → `VerifyingAdapterLookup.changed(None)` (repaired): when the generation snapshot is
+out of date the registry's resolution order is re-derived from the current base graph before the re-snapshot -/
+def verify (w : World) (r : Nat) : World :=
+  if !w.verifying then w else
+  let x := w.reg r
+  if (x.verifyRo.map fun b => (w.reg b).generation) != x.verifyGen then
+    verifyingChanged (w.setReg r { x with ro := (roFull (regBases w) (w.regs.length + 1) r).mro }) r
+  else w
+
+/-- `BaseAdapterRegistry._setBases` -/
+def setBasesOwn (fuel : Nat) (w : World) (r : Nat) (bs : List Nat) : World :=
   let w := w.setReg r { w.reg r with bases := bs }
   let w := w.setReg r { w.reg r with ro := (roFull (regBases w) fuel r).mro }
   changed fuel w r
+
+/-- `_removeSubregistry` / `_addSubregistry` bookkeeping of `AdapterRegistry._setBases` -/
+def moveSubreg (w : World) (r : Nat) (old bs : List Nat) : World :=
+  let w := old.foldl (fun w b => if bs.contains b then w else
+    w.setReg b { w.reg b with subregs := (w.reg b).subregs.filter (· != r) }) w
+  bs.foldl (fun w b => if old.contains b then w else
+    w.setReg b { w.reg b with subregs := (w.reg b).subregs.filter (· != r) ++ [r] }) w
+
+/-- as at the pinned commit: only the registry's own `ro` is recomputed -/
+def setBasesAsIs (fuel : Nat) (w : World) (r : Nat) (bs : List Nat) : World :=
+  let w := if w.verifying then w else moveSubreg w r (w.reg r).bases bs
+  setBasesOwn fuel w r bs
+
+/-- `AdapterRegistry._setBases` (repaired): afterwards every sub-registry re-runs `_setBases` on its own bases -/
+def setBasesPush (fuel : Nat) : Nat → World → Nat → List Nat → World
+  | 0, w, _, _ => w
+  | f+1, w, r, bs =>
+    let w := moveSubreg w r (w.reg r).bases bs
+    let w := setBasesOwn fuel w r bs
+    (w.reg r).subregs.foldl (fun w s => setBasesPush fuel f w s (w.reg s).bases) w
+
+def setBases (fuel : Nat) (w : World) (r : Nat) (bs : List Nat) : World :=
+  if w.verifying then setBasesOwn fuel w r bs else setBasesPush fuel fuel w r bs
 
 /-! ### mutators -/
 def convNone (k : Option Id) : K := some (k.getD 0)            -- `_convert_None_to_Interface`
@@ -337,4 +365,44 @@ def registered (w : World) (r : Nat) (req : List (Option Id)) (prov : Id) (name 
   let order := req.length
   (Level.find (order+1) (getOrder ([] : Names) x.adapters order) (req.map convNone ++ [some prov])).bind fun names =>
     AList.get? names name
+
+/-! ### enumeration, `subscribed`, `rebuild` -/
+/-- `_allKeys`: all paths of a nested container in dict order -/
+def Level.entries {α} : (n : Nat) → Level α n → List (List K × α)
+  | 0, l => [([], leafOf l)]
+  | n+1, m => (kidsOf m).flatMap fun p => (Level.entries n p.2).map fun e => (p.1 :: e.1, e.2)
+
+def sortByOrder {α} (l : List (ByOrder α)) : List (ByOrder α) :=
+  (l.toArray.qsort (fun a b => a.order < b.order)).toList
+
+/-- `allRegistrations()`: (required, provided, name, value) in the order the code yields them -/
+def allRegistrations (x : Reg) : List (List K × K × String × Val) :=
+  (sortByOrder x.adapters).flatMap fun b =>
+    (Level.entries (b.order+1) b.tree).flatMap fun e =>
+      e.2.map fun nv => (e.1.dropLast, e.1.getLast?.getD none, nv.1, nv.2)
+
+/-- `allSubscriptions()` -/
+def allSubscriptions (x : Reg) : List (List K × K × Val) :=
+  (sortByOrder x.subs).flatMap fun b =>
+    (Level.entries (b.order+1) b.tree).flatMap fun e =>
+      e.2.map fun v => (e.1.dropLast, e.1.getLast?.getD none, v)
+
+/-- `subscribed(required, provided, subscriber)`: the first entry equal (`==`) to the subscriber's class -/
+def subscribed (w : World) (r : Nat) (req : List (Option Id)) (prov : Option Id) (v : Val) : Option Val :=
+  let x := w.reg r
+  let order := req.length
+  match Level.find (order+1) (getOrder ([] : List Val) x.subs order) (req.map convNone ++ [prov]) with
+  | some vs => if vs.any (fun u => u.ident == v.ident || u.eqc == v.eqc) then some v else none
+  | none => none
+
+/-- `rebuild()`: re-`__init__` (fresh containers, fresh lookup object, sub-registries kept — repaired), then replay -/
+def rebuild (fuel : Nat) (w : World) (r : Nat) : World :=
+  let x := w.reg r
+  let regs := allRegistrations x
+  let subs := allSubscriptions x
+  let w := w.setReg r { x with adapters := [], subs := [], provided := [], extendors := [],
+                                cache := [], mcache := [], scache := [], verifyRo := [], verifyGen := [] }
+  let w := setBases fuel w r x.bases
+  let w := regs.foldl (fun w e => register fuel w r e.1 (e.2.1.getD 0) e.2.2.1 e.2.2.2) w
+  subs.foldl (fun w e => subscribe fuel w r e.1 e.2.1 e.2.2) w
 end ZI.Registry
